@@ -500,3 +500,61 @@ def node_ordinals(fnode, types, label):
     nodes = [n for n in ast.walk(fnode) if isinstance(n, types)]
     nodes.sort(key=lambda n: (n.lineno, n.col_offset))
     return {id(n): "%s#%d" % (label, i + 1) for i, n in enumerate(nodes)}
+
+
+def local_binding_order(fnode):
+    """Names bound in a function, in order of first binding in the source: parameters, then assignment / loop / with / except
+    targets (nested function and class bodies excluded).  Used to recognise a local after it has been renamed."""
+    out = []
+    a = fnode.args
+    for x in a.posonlyargs + a.args + ([a.vararg] if a.vararg else []) + a.kwonlyargs + ([a.kwarg] if a.kwarg else []):
+        out.append(x.arg)
+    found = []
+
+    def tgt(t, pos):
+        if isinstance(t, ast.Name):
+            found.append((pos, t.id))
+        elif isinstance(t, (ast.Tuple, ast.List)):
+            for e in t.elts:
+                tgt(e, (e.lineno, e.col_offset))
+        elif isinstance(t, ast.Starred):
+            tgt(t.value, pos)
+
+    def walk(node):
+        for ch in ast.iter_child_nodes(node):
+            if isinstance(ch, (ast.FunctionDef, ast.AsyncFunctionDef, ast.ClassDef, ast.Lambda)):
+                continue
+            if isinstance(ch, ast.Assign):
+                for t in ch.targets:
+                    tgt(t, (t.lineno, t.col_offset))
+            elif isinstance(ch, (ast.AugAssign, ast.AnnAssign)):
+                tgt(ch.target, (ch.target.lineno, ch.target.col_offset))
+            elif isinstance(ch, (ast.For, ast.AsyncFor)):
+                tgt(ch.target, (ch.target.lineno, ch.target.col_offset))
+            elif isinstance(ch, (ast.With, ast.AsyncWith)):
+                for it in ch.items:
+                    if it.optional_vars is not None:
+                        tgt(it.optional_vars, (it.optional_vars.lineno, it.optional_vars.col_offset))
+            elif isinstance(ch, ast.ExceptHandler) and ch.name:
+                found.append(((ch.lineno, ch.col_offset), ch.name))
+            elif isinstance(ch, ast.NamedExpr):
+                tgt(ch.target, (ch.target.lineno, ch.target.col_offset))
+            walk(ch)
+    walk(fnode)
+    for _pos, nm in sorted(found):
+        if nm not in out:
+            out.append(nm)
+    return out
+
+
+def loop_keys(fnode):
+    """ordinal label -> iterable / test text of every loop of a function (same labels as the interpreter's anchors)"""
+    m = node_ordinals(fnode, (ast.For, ast.While, ast.ListComp, ast.DictComp, ast.GeneratorExp), "loop")
+    out = {}
+    for n in ast.walk(fnode):
+        if id(n) in m:
+            if isinstance(n, ast.For):
+                out[m[id(n)]] = "iter:" + ast.unparse(n.iter)
+            elif isinstance(n, ast.While):
+                out[m[id(n)]] = "while:" + ast.unparse(n.test)
+    return out
